@@ -16,7 +16,7 @@
 EXTENDS FsBase
 
 AllDevs == {"C12.same_key_rows_all_hit", "C12.alias_or_qualified_source_unsupported", "C12.helper_table_visible",
-            "C12.null_counts_without_candidates"}
+            "C12.null_counts_without_candidates", "C12.set_expression_unsupported"}
 
 NULL == 0
 RowKinds == << <<NULL, 0>>, <<NULL, 1>>, <<1, 0>>, <<1, 1>>, <<2, 0>>, <<2, 1>> >>
@@ -110,6 +110,10 @@ Steps(st, op, D) ==
              done(m) == LET s2 == [st EXCEPT !.t = m.bag, !.helper = hv] IN R(s2, Obs("ok", m, s2))
          IN IF "C12.alias_or_qualified_source_unsupported" \in D /\ op.form \in Unsupported
             THEN {R(st, Obs("exc", NoCounts, st))}
+            \* as built UPDATE SET accepts a bare source column only: any other expression fails in the generated UPDATE, after the
+            \* clauses before it were applied (the vocabulary puts the UPDATE first; the aftermath is not modelled: the judge stops)
+            ELSE IF "C12.set_expression_unsupported" \in D /\ op.form = "setexpr" /\ Has(op.cl, "upd")
+            THEN {RT(s2, Obs("exc", NoCounts, s2)) : s2 \in {[st EXCEPT !.helper = h] : h \in BOOLEAN}}
             ELSE {done(id)} \cup (IF "C12.same_key_rows_all_hit" \in D /\ ab # id THEN {done(ab)} ELSE {})
                  \* as built the counts are SQL NULL (written -2) instead of 0 when no candidate row exists at all
                  \cup (IF "C12.null_counts_without_candidates" \in D /\ Cands(op.cl, T, S) = {}
@@ -126,7 +130,8 @@ ClauseLists == SeqsUpTo(Clauses, MaxCl) \ {<<>>}
 Ops(st) ==
   (IF st.made THEN {} ELSE {o \in [k : {"setup"}, t : Tables(MaxT), s : Tables(MaxS)] : Deterministic(o.t, o.s)})
   \cup (IF st.made THEN {o \in [k : {"merge"}, cl : ClauseLists, form : FormsUsed, kw : {"lower", "upper"}] :
-                          Deterministic(Expand(st.t), Expand(st.s)) /\ SumSeq(st.t) <= MaxT + MaxS} ELSE {})
+                          /\ Deterministic(Expand(st.t), Expand(st.s)) /\ SumSeq(st.t) <= MaxT + MaxS
+                          /\ (o.form = "setexpr" => o.cl[1].k = "upd")} ELSE {})
 
 \* ---- C12 on the model ----
 StepOk(st, op, r) ==
